@@ -25,6 +25,10 @@ type Variant struct {
 	Expect string `json:"expect"` // rule id prefix that must be among the new failures ("" = any)
 	Patch  string `json:"patch"`  // alternatively: a unified diff file (seeded changes)
 	Benign bool   `json:"benign"` // behaviour-preserving edit: the check must stay silent
+	Edits  []struct {
+		Old string `json:"old"`
+		New string `json:"new"`
+	} `json:"edits"` // further edits in the same file
 }
 
 func loadVariants(prop, verif string) []Variant {
@@ -197,6 +201,12 @@ func materialise(v Variant, repo, dir string) (map[string]string, string) {
 		return nil, fmt.Sprintf("edit site occurs %d times in the current tree", n)
 	}
 	nb := strings.Replace(string(b), v.Old, v.New, 1)
+	for _, e := range v.Edits {
+		if n := strings.Count(nb, e.Old); n != 1 {
+			return nil, fmt.Sprintf("secondary edit site occurs %d times", n)
+		}
+		nb = strings.Replace(nb, e.Old, e.New, 1)
+	}
 	f := filepath.Join(dir, "v.go")
 	if err := os.WriteFile(f, []byte(nb), 0o644); err != nil {
 		return nil, err.Error()
